@@ -22,8 +22,9 @@ CONSTANTS
   VotePeers = {1, 3, 4}
   FutureH = 1
   MaxSteps = 110
-  CrashOdds = 30
+  CrashOdds = 12
   StopOdds = 25
+  CrashAfterCommit = TRUE
 INIT MBTInit
 NEXT MBTNext
 CHECK_DEADLOCK FALSE
